@@ -75,6 +75,7 @@ def run(ctx, R):
     functor_arity_checked(F, R)
     end_of_input_and_bad_bytes_in_the_lexer(F, R)
     separators_are_not_elements(F, R)
+    comment_scanners_defer_every_decoding_error(F, R)
 
     # ---- progress ---------------------------------------------------------------------------------------------
     entry, local_bad, edges, counts = progress.analyse(F)
@@ -496,3 +497,30 @@ def separators_are_not_elements(F, R):
              "element although it owns no term, and the parser then consumes a term of the enclosing expression (X = [|]. and X = foo(|). read as a bare variable)"
              % (name, sorted(rejected)), F.where(fn[0]))
     R.floor("element counters of the parser", n, 2)
+
+
+def comment_scanners_defer_every_decoding_error(F, R):
+    """Inside a comment a byte sequence that does not decode is not an error of the clause: the scanners keep the first such
+    error in a local slot and report it after the comment has been skipped, so the next read starts behind the comment.
+    Every character they read after that slot exists comes through `comment_char` (which fills it); a direct
+    `lookahead_char()?` returns from the middle of the comment, and the rest of the comment is then read as clause text."""
+    n = 0
+    for nm in ("bracketed_comment", "single_line_comment"):
+        c = [p for p in F.items if re.search(r"lexer::Lexer<.*>::%s$|lexer::<impl .*Lexer.*>::%s$|Lexer::<.*>::%s$" % (nm, nm, nm), p)]
+        if len(c) != 1:
+            c = [p for p in F.items if p.endswith("::" + nm) and "lexer" in p]
+        if len(c) != 1:
+            raise AnchorLost("Lexer::%s (%d)" % (nm, len(c)))
+        body = F.hir(c[0])["body"]
+        slots = [x for x in walk(body) if x["k"] == "Let" and x["pat"].get("k") == "PBind" and "Option<" in (x["pat"].get("ty") or "") and "ParserError" in (x["pat"].get("ty") or "")]
+        if not slots:
+            raise AnchorLost("Lexer::%s: the slot for a deferred decoding error" % nm)
+        first = min(x["ln"] for x in slots)
+        direct = [x["ln"] for x in walk(body) if x["k"] == "MethodCall" and x["name"] == "lookahead_char" and x["ln"] > first]
+        through = [x for x in walk(body) if x["k"] == "MethodCall" and x["name"] == "comment_char"]
+        n += len(through)
+        R.ob("C17:comment:%s:every-read-inside-the-comment-defers-its-decoding-error" % nm, not direct and len(through) >= 1,
+             "Lexer::%s reads a character with lookahead_char() (line %s) after the deferred-error slot exists: a byte sequence that does not decode at that place ends the read in "
+             "the middle of the comment, and the rest of the comment is taken for clause text" % (nm, direct), F.where(c[0]))
+    R.floor("reads through comment_char in the comment scanners", n, 3)
+
